@@ -10,7 +10,8 @@ GEN = ["immconsts"]
 RULE = ("grid cases: files of 56..300 bytes, 1<=k<=N<=10, max segment size 16..100, grids of N/2..N+2 servers, then any subset of share "
         "files deleted, and any subset damaged: one field (version, offset-table entry, UEB, share-hash-chain number/value, block-hash-tree "
         "node, crypttext-hash-tree node, block, unused region), random flips, truncation, a share file copied under another share number, "
-        "a share of another file; plus files whose UEB disagrees with the cap; each checked with verify=False and verify=True, then "
+        "a share of another file, a good share file copied to a second server (duplicate share number: N or more files with fewer than N "
+        "distinct numbers); plus files whose UEB disagrees with the cap; each checked with verify=False and verify=True, then "
         "check_and_repair, then (when repair wrote >= k shares) all older shares deleted and the file read; non-trivial = at least one share "
         "deleted or damaged; distinct = distinct (parameters, damage)")
 META = {
@@ -200,23 +201,63 @@ def apply_damage(r, g, shares, raws, gen, other_raws):
     return desc
 
 
+def place_share(g, cap, server, shnum, raw):
+    """Write a share file for `cap` under number `shnum` on server `server` (creating the bucket directory)."""
+    from allmydata.storage.server import storage_index_to_dir
+    d = os.path.join(g.server(server).sharedir, storage_index_to_dir(g._si(cap)))
+    os.makedirs(d, exist_ok=True)
+    with open(os.path.join(d, "%d" % shnum), "wb") as f:
+        f.write(raw)
+
+
+# (numbers deleted, numbers copied to a second server): N or more share files with fewer than N distinct numbers
+LAYOUTS = [("N-files/N-1-distinct", 1, 1), ("N-files/N-2-distinct", 2, 2), ("N+1-files/N-1-distinct", 1, 2),
+           ("N+1-files/N-distinct", 0, 1), ("N+2-files/N-1-distinct", 1, 3), ("N-1-files/N-2-distinct", 2, 1)]
+
+
+def apply_layout(r, g, cap, shares, raws, nservers, layout):
+    """Delete some share numbers and copy other (good) share files to servers that do not hold that number."""
+    label, ndel, ndup = layout
+    desc = []
+    pool = list(shares)
+    r.shuffle(pool)
+    gone = pool[:min(ndel, max(0, len(pool) - 1))]
+    for s in gone:
+        g.delete_share(s)
+        desc.append(("delete", s.shnum))
+    left = pool[len(gone):]
+    for _ in range(ndup):
+        src = r.choice(left)
+        holders = set(s.server for s in left if s.shnum == src.shnum) | set(srv for (what, srv, sh) in [d for d in desc if len(d) == 3] if sh == src.shnum)
+        free = [x for x in range(nservers) if x not in holders]
+        if not free:
+            continue
+        dst = r.choice(free)
+        place_share(g, cap, dst, src.shnum, raws[(src.server, src.shnum)])
+        desc.append(("duplicate-on-server", dst, src.shnum))
+    return desc
+
+
 def disk_state(g, cap):
     return {(s.server, s.shnum): g.read_share(s) for s in g.find_shares(cap)}
 
 
 # ---- one grid history --------------------------------------------------------------------------------------
-def history(ctx, i, jobs):
+def history(ctx, i, jobs, layout=None):
     from core import grid as G
     from allmydata.monitor import Monitor
-    r = ctx.rng("hist", i)
+    r = ctx.rng("hist" if layout is None else "layout", i)
     k = r.choice([1, 1, 2, 2, 3, 3, 4, 7])
     n = r.choice([x for x in [k, k + 1, k + 2, 2 * k, 2 * k + 1, 10] if k <= x <= 10])
     mss = r.choice([16, 24, 40, 64, 100])
     size = max(56, min(r.choice([56, 57, mss + 1, 2 * mss, 3 * mss - 1, 4 * mss + 2, 150, 300]), 8 * mss, 300))
     data = bytes(r.getrandbits(8) for _ in range(size))
     nservers = r.choice([n, n, n + 1, n + 2, max(1, (n + 1) // 2)])
+    if layout is not None:
+        n = max(n, 3)
+        nservers = max(nservers, n + 1)
     seed = r.getrandbits(30)
-    name = "F%d" % i
+    name = "%s%d" % ("F" if layout is None else "L", i)
     case = {"i": i, "k": k, "n": n, "size": size, "max_segment_size": mss, "servers": nservers, "seed": seed}
     with G.Grid(num_servers=nservers, k=k, n=n, happy=1, max_segment_size=mss, seed=seed, timeout=30) as g:
         other = g.run(g.upload(bytes(r.getrandbits(8) for _ in range(size)), convergence=b"c45"))
@@ -225,7 +266,21 @@ def history(ctx, i, jobs):
         raws = {(s.server, s.shnum): g.read_share(s) for s in shares}
         for p in gen.problems:
             ctx.mismatch("uploaded-share-differs-from-recomputed-trees", p, case=case, correspondence="verifier-verdict-vs-model")
-        desc = apply_damage(r, g, shares, raws, gen, other_raws)
+        if layout is not None:
+            desc = apply_layout(r, g, cap, shares, raws, nservers, layout)
+            case["layout"] = layout[0]
+        else:
+            desc = apply_damage(r, g, shares, raws, gen, other_raws)
+            if r.random() < 0.25:
+                # a good share file also copied to a server that does not hold that number
+                left = [s for s in g.find_shares(cap)]
+                if left:
+                    src = r.choice(left)
+                    free = [x for x in range(nservers) if x not in set(s.server for s in left if s.shnum == src.shnum)]
+                    if free:
+                        dst = r.choice(free)
+                        place_share(g, cap, dst, src.shnum, g.read_share(src))
+                        desc.append(("duplicate-on-server", dst, src.shnum))
         case["damage"] = desc
         before = disk_state(g, cap)
         views = {key: vshare_view(C.split_container(raw)[1], gen) for key, raw in before.items()}
@@ -268,7 +323,7 @@ def history(ctx, i, jobs):
             per, agg = results_of(g, out.value)
             for key, verdict in sorted(per.items()):
                 if verdict == "good" and not valid.get(key, False):
-                    what = [d for d in desc if d[1] == key[1]]
+                    what = [d for d in desc if d[-1] == key[1]]
                     kind = "verify-reports-share-good-under-wrong-number" if any(str(d[0]).startswith("holds-bytes-of-share") for d in what) \
                         else "verify-reports-damaged-share-good"
                     ctx.oracle_fail(kind, "verify=True reports share %d on server %d good, but what it holds is not the uploader's share %d (%s)" % (
@@ -288,7 +343,7 @@ def history(ctx, i, jobs):
                 terms.append("(verdict_code (sym_verify_share %s_cap %s %s (fun _ => []) (fun _ _ => [])) =? %s)%%N" % (
                     name, T.Z(key[1]), coq_vshare(views[key], gen, name, namer) if views[key].get("version") in (1, 2)
                     else "(mkVshare %s UebShort None [] [] [])" % T.N(views[key]["version"]), T.N(VERDICTS[per.get(key, "absent")] if key in per else 9)))
-                info.append(("verifier-verdict-vs-model", dict(case, server=key[0], shnum=key[1], what=[d for d in desc if d[1] == key[1]]), per.get(key, "absent")))
+                info.append(("verifier-verdict-vs-model", dict(case, server=key[0], shnum=key[1], what=[d for d in desc if d[-1] == key[1]]), per.get(key, "absent")))
             rs = []
             for srv in range(nservers):
                 mine = {sh: v for (s_, sh), v in per.items() if s_ == srv}
@@ -324,6 +379,11 @@ def history(ctx, i, jobs):
             outcome = "healthy-no-repair" if not crr.get_repair_attempted() else ("repaired" if crr.get_repair_successful() else "repair-unsuccessful")
             pre_per, pre_agg = results_of(g, crr.get_pre_repair_results())
             post_per, post_agg = results_of(g, crr.get_post_repair_results())
+            distinct_before = len(good_numbers) if verify else len(present)
+            if distinct_before < n and not crr.get_repair_attempted() and not unreadable:
+                ctx.oracle_fail("repair-not-attempted-on-unhealthy-file",
+                                "only %d distinct %s share numbers are stored (N=%d, %d share files) but check_and_repair(verify=%s) found the file healthy and did not repair" % (
+                                    distinct_before, "valid" if verify else "present", n, len(before), verify), case=case_r)
             if crr.get_repair_attempted():
                 now_good = set(sh for (srv, sh) in after if (share_valid(vshare_view(C.split_container(after[(srv, sh)])[1], gen), gen, sh) if verify else True))
                 if crr.get_repair_successful() and len(now_good) != n:
@@ -348,7 +408,7 @@ def history(ctx, i, jobs):
                 ctx.oracle_fail("cannot-read-from-repaired-shares-alone", "with only the %d shares written by repair left, download gives %s" % (
                     len(new), err or status if status != "ok" else "wrong bytes"), case=case_r)
             ctx.count("read-from-repaired-shares-alone")
-        ctx.case((k, n, size, mss, nservers, repr(desc)) if desc else None, kind="history:" + outcome)
+        ctx.case((k, n, size, mss, nservers, repr(desc)) if desc else None, kind=("history:" if layout is None else "layout:%s:" % layout[0]) + outcome)
         if i < 4:
             ctx.sample({"k": k, "n": n, "size": size, "servers": nservers, "damage": [list(d) for d in desc][:6], "repair": outcome,
                         "valid_share_numbers_before": good_numbers, "new_shares": [list(x) for x in new]})
@@ -446,6 +506,8 @@ def run(ctx):
     jobs = []
     for i in range(ctx.n(60, 700)):
         history(ctx, i, jobs)
+    for i in range(ctx.n(18, 120)):
+        history(ctx, i, jobs, layout=LAYOUTS[i % len(LAYOUTS)])
     for i in range(ctx.n(15, 60)):
         inconsistent_ueb(ctx, i, jobs)
     evaluate(ctx, jobs)
@@ -459,6 +521,8 @@ def replay(ctx, record):
     jobs = []
     if "ueb_edit" in case:
         inconsistent_ueb(ctx, case["i"], jobs)
+    elif "layout" in case:
+        history(ctx, case["i"], jobs, layout=[l for l in LAYOUTS if l[0] == case["layout"]][0])
     else:
         history(ctx, case["i"], jobs)
     evaluate(ctx, jobs)
